@@ -203,7 +203,9 @@ def analyse_tu(eng, cfg):
     orc = eng.oracle
     rule = BoundsRule(eng, cfg)
     nfun = 0
-    for f in irrules.gch_roots(eng):
+    # the narrowing rule recognises a caller-supplied length by the function's own parameters, so
+    # with an 8-bit size_type every function is walked on its own as well
+    for f in (irrules.gch_roots(eng) if cfg.sizet == 'u8' else irrules.maximal_roots(eng)):
         if 'ALLOC' not in orc.effects.get(f.name, ()) and cfg.sizet != 'u8':
             continue
         nfun += 1
